@@ -781,7 +781,10 @@ func SingleServiceAccumulation(input SingleServiceAccumulationInput) (output Sin
 		}
 	}
 
-	sort.Slice(iT, func(i, j int) bool {
+	// Stable: transfers of one sender must keep the order in which they were
+	// emitted. t is gathered by ranging over a map of services, so an unstable
+	// sort would let the order seen by the receiver depend on map iteration order.
+	sort.SliceStable(iT, func(i, j int) bool {
 		return iT[i].SenderID < iT[j].SenderID
 	})
 
